@@ -73,29 +73,60 @@ ENTRIES = {
 
 def _matrix_class(dendropy, name):
     return {"dna": dendropy.DnaCharacterMatrix, "standard": dendropy.StandardCharacterMatrix,
-            "continuous": dendropy.ContinuousCharacterMatrix, "protein": dendropy.ProteinCharacterMatrix}[name]
+            "continuous": dendropy.ContinuousCharacterMatrix, "protein": dendropy.ProteinCharacterMatrix,
+            "rna": dendropy.RnaCharacterMatrix}[name]
+
+
+def reader_kwargs(fam, opts):
+    """Reader keyword arguments of an option row (spec/ReaderInputs.tla: TreeOptionRows /
+    LineOptionRows); row 0 is the defaults and passes nothing."""
+    row = opts.get("row")
+    kw = {}
+    if fam == "phylip":
+        inter = bool(opts.get("interleaved", False))
+        kw = {"strict": bool(opts.get("strict", False)), "interleaved": inter}
+        if row and opts.get("rowidx", 0) > 0:
+            kw = {"strict": bool(row["strict"]), "interleaved": inter != bool(row["flip"]),
+                  "multispace_delimiter": bool(row["multi"]), "ignore_invalid_chars": bool(row["ign"])}
+        return kw
+    if fam == "fasta" or not row or opts.get("rowidx", 0) == 0:
+        return kw
+    kw = {"terminating_semicolon_required": bool(row["tsr"]), "suppress_leaf_node_taxa": bool(row["slt"]),
+          "suppress_internal_node_taxa": bool(row["sit"]), "suppress_edge_lengths": bool(row["sel"]),
+          "preserve_underscores": bool(row["pu"])}
+    if row["rooting"]:
+        kw["rooting"] = row["rooting"]
+    if fam == "nexus":
+        kw["store_ignored_blocks"] = bool(row["sib"])
+    return kw
+
+
+def data_type_of(fam, opts):
+    row = opts.get("row")
+    if fam in ("phylip", "fasta") and row and opts.get("rowidx", 0) > 0:
+        dt = row["dt"]
+        return "dna" if (fam == "fasta" and dt == "standard") else dt
+    return opts.get("data_type", "dna")
 
 
 def make_call(dendropy, entry, fam, text, opts):
     """-> zero-argument callable performing the read through the public API."""
     schema = fam
-    dt = opts.get("data_type", "dna")
-    kw = {}
-    if fam == "phylip":
-        kw = {"strict": bool(opts.get("strict", False)), "interleaved": bool(opts.get("interleaved", False))}
+    dt = data_type_of(fam, opts)
+    kw = reader_kwargs(fam, opts)
     if entry == "Tree.get":
-        return lambda: dendropy.Tree.get(data=text, schema=schema)
+        return lambda: dendropy.Tree.get(data=text, schema=schema, **kw)
     if entry == "TreeList.get":
-        return lambda: dendropy.TreeList.get(data=text, schema=schema)
+        return lambda: dendropy.TreeList.get(data=text, schema=schema, **kw)
     if entry == "DataSet.get":
         if fam in ("phylip", "fasta"):
             return lambda: dendropy.DataSet.get(data=text, schema=schema, data_type=dt, **kw)
-        return lambda: dendropy.DataSet.get(data=text, schema=schema)
+        return lambda: dendropy.DataSet.get(data=text, schema=schema, **kw)
     if entry == "Matrix.get":
         cls = _matrix_class(dendropy, dt)
         return lambda: cls.get(data=text, schema=schema, **kw)
     if entry == "Tree.yield_from_files":
-        return lambda: list(dendropy.Tree.yield_from_files(files=[io.StringIO(text)], schema=schema))
+        return lambda: list(dendropy.Tree.yield_from_files(files=[io.StringIO(text)], schema=schema, **kw))
     raise ValueError(entry)
 
 
